@@ -50,7 +50,11 @@ def values():
     dense = st.lists(st.sampled_from(ALPHA + ["\r", "\n", "0", "7", "1"]), min_size=40, max_size=90).map("".join)
     ctl_digit = st.tuples(st.sampled_from(["\n", "\r", "\t", "\\", '"']), st.sampled_from("01237"), crit).map(
         lambda t: "x" + t[0] + t[1] + t[2])
-    return st.one_of(crit, crit, printable, mixed, brk, dense, ctl_digit, st.integers(-5, 70000), st.booleans(),
+    # "No key or value, whatever characters it contains, can cause more than one command line": every other control
+    # character (str.splitlines() also breaks at \x0b \x0c \x1c-\x1e) - judged for the one-line clause only
+    exotic = st.tuples(crit, st.sampled_from(["\x0b", "\x0c", "\x1c", "\x1d", "\x1e", "\x00", "\x01", "\x1f", "\x7f",
+                                              "\x0b\x0c", "a\x1db"]), crit).map("".join)
+    return st.one_of(crit, crit, printable, mixed, brk, dense, ctl_digit, exotic, st.integers(-5, 70000), st.booleans(),
                      st.just(""))
 
 
@@ -99,7 +103,28 @@ def drive(case):
     if after != b"GETINFO version\r\n" or pipe.escaped or not w2.succeeded:
         res.bad("left-over-written-with-the-next-command", "pairs %r: the next command (GETINFO version) put %r on the "
                 "wire, outcome %r, escaped %r" % (case["pairs"], after, w2.outcome(), pipe.escaped))
+        return res
+    # the same call again on the same connection (Tor has acknowledged the first): "the SETCONF line produced for any
+    # list of pairs" does not depend on what was sent before
+    first = b"".join(pipe.transport.writes[n0_of(pipe):n1])
+    n2 = len(pipe.transport.writes)
+    flat = []
+    for k, v in case["pairs"]:
+        flat.extend([k, v])
+    try:
+        Watch(pipe.proto.set_conf(*flat))
+        pipe.pump()
+    except Exception:
+        pass
+    again = b"".join(pipe.transport.writes[n2:])
+    if again != first:
+        res.bad("repeated-call-encoded-differently", "pairs %r: first call wrote %r, the same call after Tor's 250 wrote "
+                "%r" % (case["pairs"], first, again))
     return res
+
+
+def n0_of(pipe):
+    return pipe.n0_setconf
 
 
 def _drive_busy(case):
@@ -171,6 +196,7 @@ def _drive_call(case):
     pairs = [(k, v) for k, v in case["pairs"]]
     pipe, srv = bootstrapped_pipe()
     n0 = len(pipe.transport.writes)
+    pipe.n0_setconf = n0
     flat = []
     for k, v in pairs:
         flat.extend([k, v])
@@ -219,6 +245,11 @@ def _drive_call(case):
     line = data[:-2].decode("latin-1")
     if not line.startswith("SETCONF "):
         res.bad("not-setconf", repr(line))
+        return res, pipe
+    if any(isinstance(x, str) and any((ord(c) < 0x20 and c not in "\t\r\n") or ord(c) == 0x7f for c in x)
+           for k, v in pairs for x in (k, v)):
+        # outside the quantifier of the round-trip clause (printable ASCII, tab, CR/LF): only "one line" is judged
+        res.label("other-control-character:one-line-only")
         return res, pipe
     if hostile_key:
         res.bad("hostile-key-sent", "pairs %r wrote %r" % (pairs, data))
